@@ -1119,6 +1119,16 @@ func (fx *FuncExec) bodyEnds(b *State, body []ast.Stmt, lc *loopCtx) []*State {
 	}
 	if !split {
 		end := fx.execBlock(b, body)
+		if fx.contract != nil && fx.contract.TailSplit {
+			// the continue states and the fall-through state reach the back edge separately
+			var ends []*State
+			for _, o := range append([]*State{end}, lc.continues...) {
+				if o != nil {
+					ends = append(ends, o)
+				}
+			}
+			return ends
+		}
 		if m := fx.mergeStates(append([]*State{end}, lc.continues...)); m != nil {
 			return []*State{m}
 		}
